@@ -172,7 +172,7 @@ def run_history(chk, uni, drv, rng, stats, script=None):
     try:
         for step_i in range(rng.randrange(4, 12) if script is None else len(script)):
             forced = None if script is None else script[step_i]
-            r = rng.random() if forced is None else {"activate": 0.0, "deactivate": 0.5, "call": 0.7, "resolve": 0.9}[forced[0]]
+            r = rng.random() if forced is None else {"activate": 0.0, "deactivate": 0.5, "call": 0.7, "missing": 0.85, "resolve": 0.9}[forced[0]]
             before = {fi: stack_state(fi) for fi in range(n)}
             if r < 0.35:
                 fi = rng.randrange(n)
@@ -222,6 +222,21 @@ def run_history(chk, uni, drv, rng, stats, script=None):
                         if not acc or acc[-1] != want:
                             chk.violation("oracle", "probe by %s on %s did not deliver %r for this call (stream: %r)" % (
                                 by, uni.fns[fi][0], want, list(acc)[-3:]), {"history": hist + [op]})
+            elif r < 0.88:
+                # a reference that does not exist is looked up (and refused): nothing else may change
+                op = {"op": "missing"}
+                from ptera.selector import select as _sel, CodeNotFoundError
+                import gc
+                try:
+                    _sel("/%s/nosuch%d > v" % (uni.name, rng.randrange(3)))
+                    chk.violation("oracle", "a reference to a function that does not exist was accepted",
+                                  {"history": hist + [op]})
+                except CodeNotFoundError:
+                    pass
+                except Exception as e:
+                    chk.violation("oracle", "a reference to a function that does not exist was refused with %s: %s" % (
+                        type(e).__name__, str(e)[:100]), {"history": hist + [op]})
+                gc.collect()
             else:
                 op = {"op": "resolve"}
             hist.append(op)
@@ -292,7 +307,7 @@ def run(chk):
         "nested class that SHARE NAMES with the module-level functions, a function defined inside a function "
         "(one live instance), the function that defines it, and a functools.wraps-decorated function; histories of 4-11 operations: activate "
         "a probe by name or by reference (optionally capturing a second variable), deactivate in any order, "
-        "call, resolve; after EVERY step the reference of every function is resolved. non-trivial = at least "
+        "call, look a non-existent reference up, resolve; after EVERY step the reference of every function is resolved. non-trivial = at least "
         "one activation and four steps")
     stats = {"histories": 0, "steps": 0, "disagreements": 0}
     try:
@@ -325,7 +340,7 @@ def run(chk):
             sc = []
             for lab, ex in trio:
                 sc += [("activate", lab, by, ex), ("call", lab)]
-            sc += [("deactivate", 1), ("resolve",), ("deactivate", 0), ("call", trio[2][0]), ("deactivate", 0)]
+            sc += [("missing",), ("deactivate", 1), ("resolve",), ("deactivate", 0), ("call", trio[2][0]), ("deactivate", 0)]
             run_history(chk, uni, drv, chk.rng, stats, script=sc)
             chk.dist("directed")
             uni.drop()
